@@ -10,6 +10,8 @@ from sa.guards import GuardView, names_in
 from sa.index import AnalysisError, Func, Module, own_nodes
 from sa.report import Ctx
 
+from .common import generic_sweeps
+
 from .cp_common import flattener_tags, produced_tags, shape_dispatch_falls_through, structural_len_subjects
 
 EXPLANATION = (
@@ -221,6 +223,7 @@ def run(ctx: Ctx):
                 continue
             defs = [ast.unparse(d.value) for d in own_nodes(solve.node) if isinstance(d, ast.Assign) and isinstance(d.targets[0], ast.Name) and isinstance(sol, ast.Name) and d.targets[0].id == sol.id]
             ctx.ob("C06-O5", "R18 table", solve, "published solution is a decoded SAT model", bool(defs) and all(d.startswith("decode_sat_solution(") for d in defs), f"{defs}", node=n)
+    generic_sweeps(ctx)
 
 
 def _fixture(ctx: Ctx):
